@@ -627,6 +627,30 @@ ADDENDA8 = {
 for _p, _t in ADDENDA8.items():
     CLAIMS[_p]['text'] = CLAIMS[_p]['text'].rstrip() + _t
 
+ADDENDA9 = {
+    'C01': ' Round 9: ETM tag covers the length field; the integrity key reaches every cipher object.',
+    'C02': ' Round 9: ETM layout (shared C01.R16); async completion re-runs the parser.',
+    'C03': ' Round 9: signature algorithm equality; gex modulus inside the requested range (client) and max inclusive (server).',
+    'C04': ' Round 9: validation for the alias.',
+    'C05': ' Round 9: empty source-address list restricts; agent signs with the key blob.',
+    'C06': ' Round 9: superseded auth handler removed synchronously (shared C05.R12).',
+    'C07': ' Round 9: pending line before EOF in the line editor.',
+    'C08': ' Round 9: TUN header accounting; replenishment test for every chunk; read() after resume (shared C07.R7).',
+    'C09': ' Round 9: factory before channel in client listeners; global request queue always serviced.',
+    'C10': ' Round 9: EC parameter arithmetic guarded; readuntil consumes what it reports; argument parsers cannot exit the process.',
+    'C11': ' Round 9: time limit re-armed at completion; KEXINIT before the kex handler starts.',
+    'C12': ' Round 9: READ reply length checked; any awaitable awaited; success only for FX_OK.',
+    'C13': ' Round 9: SCP through SFTPServerFS.',
+    'C14': ' Round 9: REALPATH control byte by table membership.',
+    'C15': ' Round 9: optional curve seed; RFC 4716 comment as stored; envelope public key compared.',
+    'C16': ' Round 9: SSHSIG user certificates only; all principals kept; present signature verified (shared C05.R3).',
+    'C17': ' Round 9: no network match in the port lookup; OpenSSH certificate lines skipped; key equality (shared C04.R8).',
+    'C18': ' Round 9: no mid-word comments; algorithm list order kept.',
+    'C20': ' Round 9: all forward_* siblings close abandoned destinations; idempotent listener close; lower-cased listen host.',
+}
+for _p, _t in ADDENDA9.items():
+    CLAIMS[_p]['text'] = CLAIMS[_p]['text'].rstrip() + _t
+
 PENDING = 'check not built yet in this session (planned, see DESIGN.md section 5)'
 
 NOT_APPLICABLE = {
